@@ -35,6 +35,7 @@ func sceneFor(name string) SceneOpts {
 		o.BurnEpoch = "five_minutes"
 		o.LevPerBlock = 2
 		o.EdenPerYear = "10000000000000"
+		o.StakeEdenPerYear = "20000000000000" // stakers earn Eden; the provider portion is vested at every provider epoch
 		o.Registry = true
 		o.NoMetadata = []string{"uusdt"} // an external asset nobody listed for burning; pool 3 holds it
 	case "rewards":
